@@ -8,26 +8,26 @@ CLAIMED = {
    note="Trusted: Kani/CBMC, rustc, std::fs::Metadata::mode (stubbed by a symbolic value), zip-entry mode source. Not covered: "
         "size/uid/gid/inode/mtime/xattr/digest/line_count columns, name decomposition, extension classes (see evidence.not_covered)."),
 
- "C01": dict(engine="F", ref="5/C01",
-   technique="Kani full-domain harnesses on the depth-window fragments of visit_dir and on the verbatim bodies of the per-root loop, the visit_dir prologue and ok_to_visit_dir hosted on shim types",
+ "C01": dict(engine="F+V", ref="5/C01",
+   technique="Kani full-domain harnesses on the depth-window fragments of visit_dir and on the verbatim bodies of the per-root loop, the visit_dir prologue and ok_to_visit_dir hosted on shim types; Verus contract (recursive spec of the documented option table + loop invariant) on the real parse_root_options",
    text="The three arithmetic pieces of the depth window - level formula, report gate, descend gate - are extracted from visit_dir on "
         "every run and proved for all u32 values against the statement's window (level 1 = directly inside the root; reported iff "
         "min/max satisfied), plus the induction step that combines them. Unbounded over the integers involved; the traversal skeleton "
-        "that uses the gates is not verified. Added: every root is traversed once with its own options whatever an earlier root left; a directory is skipped up front only when following symlinks and already visited; ok_to_visit_dir enters a directory iff its own inode is unseen and it is not an unfollowed symlink.",
+        "that uses the gates is not verified. Added: every root is traversed once with its own options whatever an earlier root left; a directory is skipped up front only when following symlinks and already visited; ok_to_visit_dir enters a directory iff its own inode is unseen and it is not an unfollowed symlink. Verus, real parse_root_options, every token vector: an option list of depth options (mindepth N, maxdepth N, depth N) yields exactly those depths (defaults 0/0 = unlimited).",
    note="Trusted: the skeleton of visit_dir around the gates (T5), canonical_path/calc_depth, read_dir. Not covered: exactly-once, order, "
-        "symlinks, root parsing."),
- "C02": dict(engine="F+V", ref="5/C02",
+        "symlinks, parse_roots."),
+ "C02": dict(engine="F+V+K", ref="5/C02",
    technique="Kani full-domain harnesses on the typed comparison arms of conforms and the BETWEEN desugaring (extracted each run) + Verus contract on the real parse_func_scalar (quoted literal)",
    text="The Int / Float / Bool / DateTime comparison tables of conforms (whole match arms incl. operand binding) and the BETWEEN "
         "desugaring of parse_cond are proved equal to the documented relation for every operator and all i64 / non-NaN f64 / bool "
-        "operands (no bound).",
-   note="Trusted: get_field_value (which attribute), Variant coercions, string/regex arm, wiring of the fragments (T5)."),
+        "operands (no bound). Verus: a quoted token is parsed as a text value (real parse_func_scalar) and a token starting at a quote is lexed as a text literal (real Lexer::next_lexem), for every input. Bounded witnesses: the String arm of conforms (whole block on a shim world with an oracle regex), operand evaluation, an empty quoted literal reaches the parser.",
+   note="Trusted: get_field_value (which attribute), Variant coercions, the regex engine, wiring of the fragments (T5)."),
  "C03": dict(engine="K+F+V", ref="5/C03",
    technique="Kani function contract on Op::negate + full-domain harnesses on comparison arms, logical block, NOT BETWEEN; Verus proof of De Morgan on the real negate_expr_op (unbounded tree depth)",
    text="Op::negate is proved (contract) to return the documented complement for all 14 operators; for every comparison operator and "
         "all operands each typed arm under negate(op) is the logical negation of the arm under op; the logical block computes AND/OR; "
-        "NOT BETWEEN is the complement of BETWEEN for all i64 triples.",
-   note="Trusted: parser tree shape (precedence, brackets), string arm; float arm stated for non-NaN operands."),
+        "NOT BETWEEN is the complement of BETWEEN for all i64 triples. Verus (unbounded): De Morgan on the real negate_expr_op for condition trees of any depth, OR / AND chain construction, bracket pairing in parse_paren. Bounded witnesses: negative string operators are complements on the String arm of conforms.",
+   note="Trusted: precedence as a grammar-level statement, the regex engine; float arm stated for non-NaN operands."),
  "C06": dict(engine="F+V", ref="5/C06",
    technique="Kani full-domain harnesses on the two early-exit conditions of visit_dir (extracted each run) + Verus contract on the real parse_limit",
    text="Both LIMIT early-exit conditions (directory loop, archive-member loop) are proved to be exactly "
@@ -37,12 +37,12 @@ CLAIMED = {
    technique="Verus contract + loop invariant on the real get_buffer_sum (unbounded rows); Kani harness on the AVG division extracted from get_mean (bounded operand domain)",
    text="SUM: the real get_buffer_sum, extracted verbatim, is proved to return the mathematical sum over any number of buffered rows of the "
         "number the key column denotes (0 when absent or unparsable), without overflow when the sum fits usize. AVG: the division in "
-        "get_mean is the real quotient sum/count (bounded domain sum < 256, count <= 16; labelled bounded).",
-   note="Assumed: String keys obey vstd's hash-table key model; str::parse::<usize> is total. Not covered: MIN/MAX/COUNT/variance arms, buffering."),
+        "get_mean is the real quotient sum/count (bounded domain sum < 256, count <= 16; labelled bounded). VAR / STDDEV: get_variance, get_mean, get_buffer_sum (whole bodies verbatim on a shim row world, powi(2) stubbed by x*x) give the textbook population / sample variance on witness columns incl. a non-integer mean and large values with a small spread (bounded); the divisor handed to get_variance is n for _POP and n-1 for _SAMP for every row count (complete).",
+   note="Assumed: String keys obey vstd's hash-table key model; str::parse::<usize> is total; powi(2) = x*x. Not covered: MIN/MAX/COUNT arms, sqrt of STDDEV, buffering."),
  "C10": dict(engine="V+F", ref="5/C10",
-   technique="Verus contracts on 19 real parser methods: panic freedom, cursor frame, Ok => Some, and TERMINATION (decreases clauses), modular and unbounded; Kani harnesses on the exit-status mapping and the ORDER BY arms",
-   text="19 real methods of impl Parser (incl. parse_fields and parse_root_options), extracted verbatim on every run, are proved free of unwrap-on-None/Err, out-of-range indexing and usize underflow AND terminating (measure: tokens left, then recursion level; every loop iteration consumes a token) for every token vector, each against its callees' contracts (cursor never moves backwards, token vector unchanged, Ok implies Some and progress). error_count -> exit status is proved to be 0 iff no error else 1 for all i32, and the parse-error arm to return 2.",
-   note="Not covered: parse_roots, Parser::parse, the lexer, evaluator-side literal errors (regex, dates), termination of the search. Assumption A1: cursor < usize::MAX."),
+   technique="Verus contracts on 19 real parser methods and on the real Lexer::next_lexem / Lexer::new: panic freedom, cursor frame, Ok => Some, and TERMINATION (decreases clauses), modular and unbounded; Kani harnesses on the exit-status mapping and the ORDER BY arms",
+   text="19 real methods of impl Parser (incl. parse_fields and parse_root_options), extracted verbatim on every run, are proved free of unwrap-on-None/Err, out-of-range indexing and usize underflow AND terminating (measure: tokens left, then recursion level; every loop iteration consumes a token) for every token vector, each against its callees' contracts (cursor never moves backwards, token vector unchanged, Ok implies Some and progress). error_count -> exit status is proved to be 0 iff no error else 1 for all i32, and the parse-error arm to return 2. The real Lexer::next_lexem, extracted verbatim, is proved panic-free (unwraps, usize / isize cursor arithmetic) and terminating for every argument vector, and every token it returns consumes input.",
+   note="Not covered: parse_roots, Parser::parse, looks_like_date / looks_like_expression (external stubs), evaluator-side literal errors (regex, dates), termination of the search. Assumption A1: cursor < usize::MAX; a String has fewer than isize::MAX characters."),
  "C13": dict(engine="F", ref="5/C13",
    technique="Kani full-domain harnesses on the DateTime arm of conforms (verbatim, shim operands with sub-second part) and on the time-of-day block of parse_datetime extracted each run",
    text="For all i64 entry times and all intervals a <= b the date arm is proved to implement = / != / < / > / <= / >= exactly as the "
@@ -61,11 +61,11 @@ CLAIMED = {
         "numeric/date key comparison."),
 
  "C12": dict(engine="F+K", ref="5/C12",
-   technique="Kani harnesses on the glob and LIKE escape tables (alternation literal + arm table) extracted from glob.rs each run, exhaustive over printable ASCII",
+   technique="Kani harnesses on the glob and LIKE escape tables (alternation literal + arm table) extracted from glob.rs each run, exhaustive over printable ASCII; the whole String arm of conforms verbatim on a shim world with an oracle Regex (bounded witnesses)",
    text="For each of the 95 printable ASCII characters the image under capture-then-map of convert_glob_to_pattern / convert_like_to_pattern "
         "is proved to be the wildcard expansion, or backslash+character for every regex metacharacter, or the character itself; no captured "
-        "token reaches the error arm. Exhaustive over the property's alphabet. Also: the regex cache keys of the glob / regex / LIKE arms are distinct for the same text; operator spellings and the negation table (cross-listed).",
-   note="Trusted: regex::Regex::replace_all semantics, anchoring and (?i), the conforms string arm and its regex cache."),
+        "token reaches the error arm. Exhaustive over the property's alphabet. Also: the regex cache keys of the glob / regex / LIKE arms are distinct for the same text; operator spellings and the negation table (cross-listed). Bounded: on 20 witness (pattern, subject) pairs incl. prefix/suffix overlap, empty run, letter case and regex metacharacters the String arm of conforms answers as the property demands for = != === !== =~ !=~ like notlike, negatives being complements, and compiles only the right translation of the pattern.",
+   note="Trusted: regex::Regex (replace_all, matching), anchoring and (?i)."),
  "C14": dict(engine="F", ref="5/C14",
    technique="Kani harnesses on the suffix ladder of parse_filesize extracted rung by rung each run",
    text="Every documented unit (k kib kb m mib mb g gib gb t tib tb b) is proved to have a rung that is reached first (no shadowing) and strips "
@@ -81,19 +81,19 @@ CLAIMED = {
    note="format! itself does not terminate in CBMC (even concrete), so its semantics for plain {} templates is assumed. Not covered: JSON/CSV "
         "encoding (serde_json, csv), row-separator protocol in the searcher paths."),
 
- "C11": dict(engine="K+F", ref="5/C11",
-   technique="Kani on the real alias tables (Op::from, ArithmeticOp::from, Field::from_str) over every documented spelling and on the keyword table of Lexer::next_lexem copied verbatim onto a shim lexer",
+ "C11": dict(engine="K+F+V", ref="5/C11",
+   technique="Kani on the real alias tables (Op::from, ArithmeticOp::from, Field::from_str, Function::from_str, OutputFormat::from, is_argumentless_function) over every documented spelling and on the keyword table of Lexer::next_lexem copied verbatim onto a shim lexer; Verus contracts on the real parse_root_options (documented option table as a recursive spec), parse_function (optional parentheses), parse_paren (bracket styles) and Lexer::next_lexem (context flags)",
    text="Every documented operator / arithmetic / column spelling, in lower and upper case, is proved to map to the same value as its canonical "
         "spelling (finite tables, enumerated completely); the lexer's keyword table is proved to classify every documented operator word, "
-        "arithmetic word and clause keyword, in three casings; the BETWEEN guard of parse_cond is case-insensitive.",
-   note="Not covered: whitespace-split invariance, bracket styles, optional tokens, root-option aliases, function aliases (symbolic lexing infeasible)."),
+        "arithmetic word and clause keyword, in three casings; the BETWEEN guard of parse_cond is case-insensitive. Function and output-format names likewise. "
+        "Verus, for every token vector: an option list of documented root options (long names and aliases, any letter case) yields exactly the documented RootOptions; `()` after an argument-less function is optional; "
+        "round and curly brackets are closed by their own kind and return the inner expression unchanged; after a token the lexer's bracket / operator context flags are the same for both bracket styles.",
+   note="Not covered: whitespace-split invariance as a relation between two lexer runs, optional `select` / commas, parse_roots. Seen and not repaired: a root passed as its own shell word is taken whole, so `from /a,/b` split at whitespace differs from the one-argument form (by design of the lexer, see DESIGN.md 8)."),
 
  "C16": dict(engine="F", ref="5/C16",
-   technique="Kani on the string arms of function::get_value and on the body of get_function_value copied verbatim against shim types, concrete witness arguments (bounded)",
-   text="SUBSTR / LENGTH / COALESCE / CONCAT / CONCAT_WS / REPLACE / TRIM arms, extracted verbatim each run, are executed by CBMC on 27 concrete "
-        "witnesses covering 1-based and negative positions, optional length, character (not byte) length, and ill-typed arguments "
-        "(empty value, no panic), and F(G(x), a, b) applies F to the values of its arguments in order. Bounded stand-in: labelled as such.",
-   note="Concrete witnesses only. Not covered: other functions, composition, numeric formatting."),
+   technique="Kani on 16 arms of function::get_value and on the body of get_function_value copied verbatim against shim types, concrete witness arguments (bounded)",
+   text="SUBSTR / LENGTH / COALESCE / CONCAT / CONCAT_WS / REPLACE / TRIM / LTRIM / RTRIM / LOWER / UPPER / INITCAP / ABS / LEAST / GREATEST / SQRT arms, extracted verbatim each run, are executed by CBMC on about 50 concrete witnesses covering 1-based and negative positions, optional length, character (not byte) length, non-ASCII letters and ill-typed arguments (empty value, no panic); F(G(x), a, b) applies F to the values of its arguments in order; an empty string argument reaches the parser. Bounded stand-in: labelled as such.",
+   note="Concrete witnesses only. Not covered: base64 (Kani ICE on the rbase64 crate), BIN/HEX/OCT (format!), POWER/LOG/LN/EXP (unmodelled float intrinsics), date functions (chrono)."),
 }
 PENDING = "no contract-based check built yet in this revision (planned: DESIGN.md section 5)"
 NOT_APPLICABLE = {
